@@ -38,6 +38,8 @@ def scenarios(draw):
     sc["gtf"].update({"extras": src.bool(0.4), "cds": src.bool(0.4), "exon_ids": src.bool(0.3)})
     lens = {c[0]: c[1] for c in sc["chroms"]}
     sc["reads"] = [r for r in sc["reads"] if R.cigar_blocks(r["p"], r["cg"])[-1][1] + 45 < lens[r["c"]]]
+    for i in range(src.int(0, 4)):
+        sc["reads"].append(S.unmapped_read("u%d" % i))
     sc["opts"] = ["--data_type", src.choice(["nanopore", "pacbio_ccs"]), "--no_gzip", "--threads",
                   str(src.choice([1, 2]))]
     if src.bool(0.5):
@@ -147,6 +149,8 @@ def evaluate(case, ctx):
             # non-trivial: reads of one gene end up in different files
             by_gene = {}
             for r, fi in zip(sc["reads"], v["assign"]):
+                if r.get("c") is None:
+                    continue
                 by_gene.setdefault((r["c"], r["p"] // 3000), set()).add(fi)
             if any(len(x) > 1 for x in by_gene.values()):
                 ctx.mark_nontrivial(case_hash(case))
